@@ -38,6 +38,10 @@ func Encode(x any, b *lib.Buffer, options Options) (ret error) {
 		return fmt.Errorf("nothing to encode")
 	}
 
+	if options.depth == nil {
+		options.depth = new(int)
+	}
+
 	// Use pooled state instead of allocation
 	state := getPooledStateEncode(options)
 	defer putPooledStateEncode(state)
@@ -456,6 +460,15 @@ func encodeAny(value reflect.Value, b *lib.Buffer, state *stateEncode) error {
 		b.AppendByte(edtNil)
 		return nil
 	}
+
+	// the decoder refuses a deeper nesting of interface-typed values (see maxDecodeDepth).
+	// the counter is set by Encode and shared by all the states of one encoding
+	depth := state.options.depth
+	if *depth >= maxDecodeDepth {
+		return fmt.Errorf("too deep nesting")
+	}
+	*depth++
+	defer func() { *depth-- }()
 
 	if state.child != nil {
 		state.child = nil
